@@ -32,3 +32,34 @@ pub fn verif_extend_drain_from<T>(left: &mut Vec<T>, right: &mut Vec<T>, from: u
 {
     left.extend(right.drain(from..))
 }
+
+// ---- $* : joining the fields with the first character of IFS (XCU 2.5.2) ----------------------------------
+/// placeholder for yash_env::variable::VariableSet (only handed to the separator helper here)
+pub struct VariableSet { pub id: u64 }
+
+/// the separator `$*` joins with: the first character of IFS, a space if IFS is unset, nothing if IFS is empty
+pub uninterp spec fn ifs_separator(vars: &VariableSet) -> Option<AttrChar>;
+
+/// The separator computation of `ifs_join` (`match vars.get(IFS)... .map(|c| AttrChar {..})`): it reads a variable and
+/// takes the first character of a string, outside Verus's reach.  ASSUMED (rewrite rule tokens-to-helper): it returns
+/// `ifs_separator(vars)`; which character that is, is NOT verified.
+#[verifier::external_body]
+pub fn verif_ifs_separator(vars: &VariableSet) -> (r: Option<AttrChar>)
+    ensures r == ifs_separator(vars),
+{ unimplemented!() }
+
+/// `result.reserve_exact(<sum of the remaining lengths>)`: capacity only, no effect on the contents
+#[verifier::external_body]
+pub fn verif_reserve_for_join(result: &mut Vec<AttrChar>, rest: &std::vec::IntoIter<Vec<AttrChar>>)
+    ensures final(result)@ == old(result)@,
+{ unimplemented!() }
+
+/// fields joined with the separator between them
+pub open spec fn join_with(fs: Seq<Seq<AttrChar>>, sep: Option<AttrChar>) -> Seq<AttrChar>
+    decreases fs.len()
+{
+    if fs.len() == 0 { Seq::empty() }
+    else if fs.len() == 1 { fs[0] }
+    else { join_with(fs.drop_last(), sep) + (match sep { Some(c) => seq![c], None => Seq::empty() }) + fs.last() }
+}
+
